@@ -66,11 +66,13 @@ def mp():
 class Fam:
     """the property's family with closed-form Taylor coefficients (mpmath, 40 digits) and the distance to the nearest singularity"""
 
-    def __init__(self, rng, m, kinds=('exp', 'inv', 'sin', 'cos', 'log', 'pow', 'poly', 'expinv', 'expsin')):
+    def __init__(self, rng, m, kinds=('exp', 'inv', 'sin', 'cos', 'log', 'pow', 'poly', 'expinv', 'expsin'), near=False):
         self.m = m
         self.kind = kind = str(rng.choice(list(kinds)))
         self.a = a = float(rng.uniform(0.5, 2))
         self.b = b = float(rng.uniform(2.6, 4)) * (1 if rng.random() < 0.5 else -1)
+        if near:          # a singularity close to the origin (used with z0 next to it and an initial radius far outside the disc of analyticity)
+            self.b = b = float(rng.uniform(0.03, 0.08)) * (1 if rng.random() < 0.5 else -1)
         self.p = p = float(rng.choice([0.5, -0.5, 1.5, 2.5, -1.5]))
         self.cs = cs = [float(t) for t in rng.uniform(-1, 1, size=int(rng.integers(9, 14)))]
         ab = abs(b)
@@ -144,6 +146,13 @@ def sweep(ctx, N, focus=False):
             n = int(rng.choice([53, 55, 60, 80, 100]))
             dflt = False
             kw = dict(r=float(10 ** rng.uniform(-1.5, 0)), step_ratio=float(rng.uniform(2.4, 3.0)), num_extrap=int(rng.integers(2, 5)))
+            if it % 3 == 2:
+                # a singularity at distance 0.03 .. 0.08 and an initial radius 0.3 .. 1 far outside the disc: the first circles enclose the
+                # singularity and agree with each other on garbage; only the selection stage keeps them from being returned
+                g = Fam(rng, m, kinds=('inv', 'log', 'pow'), near=True)
+                z0 = complex(0.0, 0.0) if it % 2 else 0.0
+                n = int(rng.choice([20, 30, 40]))
+                kw = dict(r=float(rng.choice([0.3, 1.0])))
         desc = {'f': g.name, 'z0': repr(z0), 'n': n, 'options': kw, 'how': 'from numdifftools.fornberg import taylor; taylor(f, z0=z0, n=n, full_output=True, **options)'}
         fb._extrapolate = extr
         try:
